@@ -25,6 +25,7 @@ pub mod c23;
 pub mod c24;
 pub mod c25;
 pub mod c30;
+pub mod pygen;
 pub mod c29;
 
 use crate::common::{Ctx, Report};
@@ -57,6 +58,10 @@ pub fn dispatch(p: &str, ctx: &Ctx) -> Option<Report> {
         "C24" => c24::run(ctx),
         "C30" => c30::run(ctx),
         "C25" => c25::run(ctx),
+        "C26" => pygen::gen_c26(ctx),
+        "C27" => pygen::gen_trees(ctx, "C27"),
+        "C28" => pygen::gen_trees(ctx, "C28"),
+        "C32" => pygen::gen_trees(ctx, "C32"),
         "C29" => c29::run(ctx),
         _ => return None,
     })
